@@ -427,6 +427,35 @@ func TestC09(t *testing.T) {
 		r.Exhaustive("sensitivity", !r.Replaying())
 	}
 
+	// "comparison never panics and always terminates" on pairs where a property is set on one side only: every single-cell value
+	// against the same id and type without that property, and against the everything-set value of its type with the same id
+	if r.WantLayer("one-sided", true) {
+		cells, _ := vocab.SingleCells(true)
+		n := 0
+		for _, c := range cells {
+			if !r.WantCell(c.ID) {
+				continue
+			}
+			n++
+			sv, _ := vocab.StructOf(c.Value)
+			bare := reflect.New(c.Type)
+			bare.Elem().FieldByName("ID").Set(sv.FieldByName("ID"))
+			bare.Elem().FieldByName("Type").Set(sv.FieldByName("Type"))
+			full := vocab.Everything(c.Type, true)
+			fv, _ := vocab.StructOf(full)
+			fv.FieldByName("ID").Set(sv.FieldByName("ID"))
+			fv.FieldByName("Type").Set(sv.FieldByName("Type"))
+			r.Case("one-sided "+c.ID, true, "one-sided kind="+string(c.Field.Kind))
+			for _, pr := range [][2]ap.Item{{c.Value, bare.Interface().(ap.Item)}, {bare.Interface().(ap.Item), c.Value}, {c.Value, full}, {full, c.Value}} {
+				if _, key, detail := c09Equal(pr[0], pr[1]); key != "" {
+					r.Report("one-sided", c.ID, key, detail+" (comparing "+clipStr(vocab.Dump(pr[0]), 200)+" with "+clipStr(vocab.Dump(pr[1]), 200)+")", c.ID)
+				}
+			}
+		}
+		r.Cells(len(cells), n)
+		r.Exhaustive("one-sided", !r.Replaying())
+	}
+
 	// reflexivity of lists that hold nil-like members (nil, nil pointer, empty IRI, the "-" IRI) next to real ones, alone and
 	// as the value of list-typed and item-typed properties
 	if r.WantLayer("nil-members", true) {
